@@ -146,6 +146,16 @@ func (uc UseCase) discoverServer(
 	ctx context.Context,
 	svr server.Server,
 ) error {
+	// enqueue the probe before marking the server, so that a failure in between
+	// cannot leave the server waiting for a probe that does not exist
+	prb := probe.New(svr.Addr, svr.Addr.Port, probe.GoalPort, uc.ops.MaxProbeRetries)
+	if err := uc.probeRepo.AddBetween(ctx, prb, repositories.NC, repositories.NC); err != nil {
+		uc.logger.Warn().
+			Err(err).Stringer("server", svr).
+			Msg("Unable to add server to port discovery queue")
+		return ErrUnableToDiscoverServer
+	}
+
 	svr.UpdateDiscoveryStatus(ds.PortRetry)
 
 	if _, err := uc.serverRepo.Update(ctx, svr, func(updated *server.Server) bool {
@@ -159,14 +169,6 @@ func (uc UseCase) discoverServer(
 		return true
 	}); err != nil {
 		return err
-	}
-
-	prb := probe.New(svr.Addr, svr.Addr.Port, probe.GoalPort, uc.ops.MaxProbeRetries)
-	if err := uc.probeRepo.AddBetween(ctx, prb, repositories.NC, repositories.NC); err != nil {
-		uc.logger.Warn().
-			Err(err).Stringer("server", svr).
-			Msg("Unable to add server to port discovery queue")
-		return ErrUnableToDiscoverServer
 	}
 	uc.metrics.DiscoveryQueueProduced.Inc()
 
